@@ -104,7 +104,7 @@ func init() {
 		Rule: "1-4 scripted attackers (oversize frame headers without body, raw garbage, truncated frames, well-formed messages with arbitrary field values in arbitrary order incl. hostile extension handshakes / ut_metadata / PEX) connect and re-connect to a real session in every state (metadata unknown via magnet, allocating/verifying with slow disk, downloading, seeding, stop/start) while an honest re-dialling seed transfers; oracles: no crash or hang of the process, oversize header dropped without waiting for (or allocating) the body, honest transfer completes; non-trivial if a piece was written or the torrent was pre-seeded; distinct = distinct event-trace hashes among non-trivial runs"}
 	props["C13"] = &propCfg{Scenarios: []scenarioRef{{"magnet", 3}, {"transfer_byz", 1}}, Level: "exploration",
 		Rule: "magnet starts (hex/base32 hash, display names needing escaping, tracker tiers, x.pe peers) with 2-6 scripted peers serving ut_metadata honestly or with lies (size over the limit / huge / wrong / omitted, wrong bytes, wrong piece size, duplicates, unrequested pieces, garbage, rejects, silence), multi-piece metadata, small MaxMetadataSize; oracles: adopted metadata hashes to the link's info-hash (own bdecoder on Torrent()), no request to a peer announcing more than the limit, fetch and download complete with an honest peer, exported link parses back (own parser) to hash/name/tiers-as-sets/peers; non-trivial if a piece was written; distinct = distinct event-trace hashes among non-trivial runs"}
-	props["C18"] = &propCfg{Scenarios: []scenarioRef{{"blocklist", 1}}, OwnsCrash: false, Level: "exploration",
+	props["C18"] = &propCfg{Scenarios: []scenarioRef{{"blocklist", 1}}, OwnsCrash: true, Level: "exploration",
 		Rule: "a real session with a blocklist fetched (and re-fetched every 20 s) from a scripted HTTP server whose list changes in stages (overlapping, nested, /0../32, comments, malformed lines, refused lists), trackers (HTTP+UDP) at addresses that become blocked, and 3-10 candidate peers offered through tracker replies, PEX, DHT-stub injection, manual adds and incoming connections, incl. the client's own address, port 0 and a corrupting peer; the download can never finish so the client keeps dialling; oracles over the transport log against a linear scan of the list(s) possibly in effect; non-trivial if a handshake completed or more than two dials happened; distinct = distinct event-trace hashes among non-trivial runs"}
 	props["C19"] = &propCfg{Scenarios: []scenarioRef{{"private", 1}}, Level: "exploration",
 		Rule: "same world with the private key encoded as i1e / 1:1 / i2e / i-1e / 3:yes / le / de / 1:0 / i0e / 0: / absent, DHT stub and PEX enabled or not, configured private peer-id prefix / client version / user agent, .torrent or magnet start; the client's own classification (Stats().Private) selects the private oracles: no DHT call for the info-hash, no AddNode from port messages, DHT/PEX-only addresses never dialled nor stored, no PEX sent, Magnet() refused, private metadata from a magnet refused with nothing allocated, identity strings as configured; non-trivial if a handshake completed or more than two dials happened; distinct = distinct event-trace hashes among non-trivial runs"}
